@@ -13,6 +13,15 @@ CHECKS = {
              "boundary classes and a complete small domain; platform constants from the compiled probe. bucket theorems assume size <= 2^63.",
         technique="Lean 4 proof over translator-generated model + translation validation"),
 }
+CHECKS["C07"] = dict(
+    text="Lean theorems over the iteration_allocator<N> model for every N>=1 and every block size: regions tile the block and are "
+         "pairwise disjoint; the constructor puts every stack at the start of its region (the D4 repair); every successful "
+         "allocate/try_allocate lies in the current region, aligned, and leaves other regions alone; next_iteration restores the full "
+         "capacity of the region it switches to; a region is not reset by fewer than N switches (lifetime). Tied to the code by "
+         "line-by-line correspondence of seeded histories (N=1..5, rel/rwdi/dbg) plus overlap/content/alignment oracles on the real code.",
+    note="Trusted: Lean kernel + standard axioms; hand-written model (Model/Stack.lean) tied by sampled correspondence; guards and align_offset "
+         "come from the translator; debug fill writes are not modelled (content oracle covers them by sampling).",
+    technique="Lean 4 proof (invariant by induction) + model/implementation correspondence")
 NOT_YET = {}
 
 def main():
